@@ -30,3 +30,8 @@ IGRAPH_CONVENTION = {"0.9": "FWD", "0.10": "FWD", "0.11": "FWD", "1.0": "INV"}
 
 # strftime directive widths used by the molfile header timestamp
 STRFTIME_WIDTH = {"%m": 2, "%d": 2, "%y": 2, "%H": 2, "%M": 2, "%S": 2, "%Y": 4, "%j": 3, "%I": 2}
+
+# CTfile formats (BIOVIA), bond block: V2000 `ttt` = 1 single, 2 double, 3 triple, 4 aromatic, 5 single or double,
+# 6 single or aromatic, 7 double or aromatic, 8 any; V3000 bond `type` additionally 9 coordination, 10 hydrogen
+V2000_BOND_TYPES = tuple(range(1, 9))
+V3000_BOND_TYPES = tuple(range(1, 11))
